@@ -560,7 +560,14 @@ func (s *Sched) Run(stop func() bool, until time.Time, idleReturn bool, maxIdle 
 		}
 		e := s.enabledLocked()
 		if len(e) > 0 {
-			idleStart = time.Time{}
+			// background goroutines (tickers, probes) keep running while the workload is
+			// stuck: only workload progress ends an idle period
+			for _, t := range e {
+				if !t.Background {
+					idleStart = time.Time{}
+					break
+				}
+			}
 			if s.StallDenom > 0 && s.StallBudget > 0 && len(s.StallDurs) > 0 && s.choose(s.StallDenom, "stall?") == 0 {
 				t := e[0]
 				if len(e) > 1 {
@@ -649,6 +656,12 @@ func (s *Sched) findDeadlockLocked() *SchedError {
 			continue
 		}
 		next[t] = t.waitLock.holders()
+		// a lock still held by a task that has ended can never be released: leaked lock
+		for _, h := range next[t] {
+			if h != nil && h.state == stDone {
+				return &SchedError{Kind: "deadlock", Detail: fmt.Sprintf("%s waits %s@%s for a lock that %s took at %s and still held when it ended (leaked lock: no goroutine can release it)", t, t.opKind, SiteOf(t.opPC), h, SiteOf(t.waitLock.acqPC)), Sites: []string{"leaked-lock@" + SiteOf(t.waitLock.acqPC)}}
+			}
+		}
 	}
 	// DFS for a cycle
 	color := map[*Task]int{}
